@@ -11,6 +11,7 @@
 -/
 import RxModel.Spec.OpLang
 import RxModel.Model.Compile
+import RxModel.Proofs.InvLemmas
 namespace Rx.C05
 open Rx
 
@@ -19,17 +20,17 @@ def NoPanic (st : St) : Prop := st.panic = none ∨ st.panic = some panicDiverge
 
 /-- no engine step of a back-reference-free tree raises a panic, whatever the consumer does -/
 theorem sem_no_panic (ctx : Ctx) (hb : ctx.hasBackrefs = false) (op : Op) (hop : hasBackref op = false)
-    (p : Nat) (st : St) (h : NoPanic st) : (sem ctx op p st).Inv NoPanic := by
-  sorry
+    (p : Nat) (st : St) (h : NoPanic st) : (sem ctx op p st).Inv NoPanic :=
+  sem_np ctx hb op hop p st trivial h
 
 /-- `first1` hands on a panic-free state -/
-theorem first1_no_panic (s : Step) (h : s.Inv NoPanic) : NoPanic (first1 s).2 := by
-  sorry
+theorem first1_no_panic (s : Step) (h : s.Inv NoPanic) : NoPanic (first1 s).2 :=
+  first1_inv h (fun _ => noRealPanic_junk)
 
 /-- `match_at` keeps the state panic-free -/
 theorem matchAt_no_panic (ctx : Ctx) (hb : ctx.hasBackrefs = false) (op : Op) (hop : hasBackref op = false)
-    (j : Nat) (st : St) (h : NoPanic st) : NoPanic (matchAt ctx op j st).2 := by
-  sorry
+    (j : Nat) (st : St) (h : NoPanic st) : NoPanic (matchAt ctx op j st).2 :=
+  matchAt_np ctx hb op hop j st h
 
 /-- the facts `ReProgram::new` derives never make the search loop itself panic -/
 def FactsOK (pr : Prog) : Prop :=
@@ -41,29 +42,32 @@ theorem matchesFrom_no_panic (pr : Prog) (lower : Nat → Nat) (input : List Nat
     (hb : pr.hasBackrefs = false) (hop : hasBackref pr.op = false) (hf : FactsOK pr)
     (hlen : input.length < usizeMax)
     (i : Nat) (hi : i ≤ input.length) (st : St) (h : NoPanic st) :
-    NoPanic (matchesFrom (pr.ctx lower input) pr i st).2 := by
-  sorry
+    NoPanic (matchesFrom (pr.ctx lower input) pr i st).2 :=
+  matchesFrom_np pr lower input hb hop hf.1 hf.2 hlen i hi st h
 
 /-- `is_match` never panics on a back-reference-free program -/
 theorem isMatch_no_panic (pr : Prog) (lower : Nat → Nat) (input : List Nat)
     (hb : pr.hasBackrefs = false) (hop : hasBackref pr.op = false) (hf : FactsOK pr)
     (hlen : input.length < usizeMax) (c : Nat) :
-    pr.isMatch lower input ≠ .panic c := by
-  sorry
+    pr.isMatch lower input ≠ .panic c :=
+  isMatch_np pr lower input
+    (matchesFrom_np pr lower input hb hop hf.1 hf.2 hlen 0 (Nat.zero_le _) {} (.inl rfl)) c
 
 /-- the program built by `ReProgram::new` has consistent facts -/
 theorem mkProgram_factsOK (pat : List Nat) (op : Op) (mp : Nat) (fl : CFlags) (hop : hasBackref op = false) :
-    FactsOK (mkProgram pat op mp fl false) := by
-  sorry
+    FactsOK (mkProgram pat op mp fl false) :=
+  mkProgram_facts pat op mp fl hop
 
+set_option linter.unusedVariables false in
 /-- replacement-string expansion is total: its only failure is InvalidReplacementString -/
 theorem subst_total (pr : Prog) (input repl : List Nat) (st : St) (simple : Bool) (hmp : pr.maxParens ≠ 0) :
     (pr.subst input repl st simple).isSome ∨ pr.subst input repl st simple = none := by
-  sorry
+  cases pr.subst input repl st simple <;> simp
 
 /-- flag parsing and the whitespace pre-pass are total functions with classified results only -/
 theorem flags_classified (fs : List Nat) (xsd : Bool) (env : Env) (p : List Nat) (opt : Bool)
     (h : parseFlags fs xsd = none) : Regex.new env p fs xsd opt = .err .invalidFlags := by
-  sorry
+  unfold Regex.new
+  rw [h]
 
 end Rx.C05
